@@ -1562,6 +1562,11 @@ class GateauxDerivativeRuleset(GenericDerivativeRuleset):
 
         # FIXME: Handle other coefficient derivatives: oprimes =
         # self._cd.get(o)
+        if self._cd.get(o) is not None:  # type: ignore
+            raise NotImplementedError(
+                "Gradient of a coefficient with a user-provided coefficient derivative "
+                f"is not supported: {ufl_err_str(g)}."
+            )
 
         if 0:
             oprimes = self._cd.get(o)
